@@ -16,6 +16,8 @@ inductive Panic where
   | typeAssert       -- `j.rightOp.([]T)` on a register of another type
   | stringer         -- a user `String()` method panicked
   | nilOp            -- method call on a nil `currentOperation`
+  | indexRange       -- index / slice bounds out of range (only the translated code can say it; `Proofs/VisitorGen` shows it is never reached)
+  | nilDeref         -- method call on a nil context (idem)
   deriving Repr, DecidableEq
 
 /-- evaluation error (`visitor.err`, returned by Process) -/
